@@ -3235,7 +3235,14 @@ func (p *printer) printExpr(expr js_ast.Expr, level js_ast.L, flags printExprFla
 				p.print("*")
 			}
 			p.printSpace()
-			p.printExprWithoutLeadingNewline(e.ValueOrNil, js_ast.LYield, 0)
+
+			// An "in" operator inside the operand of "yield" is still inside a
+			// for-loop initializer unless this expression is parenthesized
+			var valueFlags printExprFlags
+			if !wrap {
+				valueFlags = flags & forbidIn
+			}
+			p.printExprWithoutLeadingNewline(e.ValueOrNil, js_ast.LYield, valueFlags)
 		}
 
 		if wrap {
